@@ -6,7 +6,7 @@ from ..core import AnalysisError, norm, walk_no_nested, calls_in
 from .changelogmodel import Model, M
 
 META = {
-    'design_ref': 'DESIGN.md §3 C15',
+    'design_ref': 'DESIGN.md §5 C15',
     'technique': 'typestate extraction: abstract transition system of parse_changelog (local closures inlined, quantifiers expanded, named conditions tracked) over (state constant, saved state, block-exists flag, language of the current line) with reachability; who-may-call / effect rule for the diagnostics funnel; regular-language side conditions for implicit exceptions (arity of every split of the line, group indices, group participation)',
     'level_text': 'Static decision over all line sequences: every reachable abstract state is handled, `assert False` is unreachable, '
                   'self._blocks[-1] is only evaluated when a block exists, warnings and parse errors are produced only through _parse_error '
